@@ -296,6 +296,9 @@ class DictReader:
                         eval_successful = True
                     except SyntaxError:
                         logger.warning(f'DictReader.(): evaluation of "{expression}" not yet possible')
+                    except Exception as e:  # noqa: BLE001
+                        # e.g. ZeroDivisionError, TypeError, ValueError: the expression cannot be evaluated. Keep its text.
+                        logger.warning(f'DictReader.(): evaluation of "{expression}" failed: {e}')
                 if eval_successful:
                     assert eval_result is not None
                     while global_key := dict_in.find_global_key(query=placeholder):
